@@ -118,6 +118,7 @@ P = {
     "C10.b": "_find_referenced_obj tries the referencing object first, then climbs parent only (every search starts at that variable); textx_isinstance dominates the success return",
     "C10.c": "list-valued and scalar-valued descent branches agree (both test the name and return the match)",
     "C10.e": "the FQN search helpers never raise for a failed candidate; the candidate filter excludes by name only dunder and _tx_ names",
+    "C10.g": "FQNImportURI installs the redirection through the models loaded by an import statement only under importAs",
     "C10.f": "the containment table consulted for the attributes of an object is the table of that object's own class",
     "C10.d": "objects found by the FQN search are recognised by None-test, not by truth value",
   },
@@ -399,6 +400,7 @@ GENERAL = {
     "M": "(general) memo keys: wherever a computation is skipped because a key was seen before (dict / set / attribute used as a memo), every input of the skipped computation that can vary during the memo's lifetime is determined by the key",
     "O": "(general) every metamodel option is stored verbatim from the constructor parameter of the same name and read under that name",
     "P": "(general) navigation through an attribute named at run time (RREL steps, dotted paths): every use of getattr(obj, name)'s value lies where needs_to_be_resolved(obj, name) is known false",
+    "Q": "(general) in the scoping code every branch that finds a value to be Postponed leaves the function with that value (return v, or yield v + return)",
     "I": "(general) a local bound to a one-shot iterator (filter, map, zip, iter, reversed, enumerate, generator expression) has at most one use and none inside a loop",
     "F": "(general) pass-through parameters: a function that takes a parameter p (or **kwargs) and calls a function or class of the code base that takes p (or **kwargs) hands it on, by keyword, position or **kwargs (two reasoned exceptions)",
     "V": "(general) record classes on this property's path (ObjCrossRef, RefRulePosition, TextXError and its subclasses) store every constructor parameter under its own name and unchanged; exception subclasses hand every location field to the base constructor under the base's name",
